@@ -74,6 +74,9 @@ template <class T> std::string str(const T& v) { std::ostringstream o; o << v; r
 // Global operator new/delete are replaced by counting versions built on malloc/free
 // (ASan still poisons/quarantines through its malloc interception).
 extern long g_live_allocs;
+// when g_new_fill_on is set, every block handed out by operator new is pre-filled with g_new_fill: a parser that leaves a member
+// uninitialised then shows different getter values under different fills (ASan's own malloc fill is a constant 0xbe)
+extern unsigned char g_new_fill; extern bool g_new_fill_on;
 inline long live_allocs() { return g_live_allocs; }
 
 // ---------------------------------------------------------------- report
@@ -195,6 +198,7 @@ int run_main(int argc, char** argv, int njobs_quick, int njobs_thorough,
 #ifndef MC_NO_IMPL
 namespace mc {
 long g_live_allocs = 0;
+unsigned char g_new_fill = 0; bool g_new_fill_on = false;
 Report R;
 Args A;
 double g_t0 = 0;
@@ -274,10 +278,10 @@ int run_main(int argc, char** argv, int njobs_quick, int njobs_thorough,
 }
 }  // namespace mc
 
-void* operator new(size_t n) { void* p = malloc(n ? n : 1); if (!p) throw std::bad_alloc(); ++mc::g_live_allocs; return p; }
-void* operator new[](size_t n) { void* p = malloc(n ? n : 1); if (!p) throw std::bad_alloc(); ++mc::g_live_allocs; return p; }
-void* operator new(size_t n, const std::nothrow_t&) noexcept { void* p = malloc(n ? n : 1); if (p) ++mc::g_live_allocs; return p; }
-void* operator new[](size_t n, const std::nothrow_t&) noexcept { void* p = malloc(n ? n : 1); if (p) ++mc::g_live_allocs; return p; }
+void* operator new(size_t n) { void* p = malloc(n ? n : 1); if (!p) throw std::bad_alloc(); ++mc::g_live_allocs; if (mc::g_new_fill_on) memset(p, mc::g_new_fill, n); return p; }
+void* operator new[](size_t n) { void* p = malloc(n ? n : 1); if (!p) throw std::bad_alloc(); ++mc::g_live_allocs; if (mc::g_new_fill_on) memset(p, mc::g_new_fill, n); return p; }
+void* operator new(size_t n, const std::nothrow_t&) noexcept { void* p = malloc(n ? n : 1); if (p) { ++mc::g_live_allocs; if (mc::g_new_fill_on) memset(p, mc::g_new_fill, n); } return p; }
+void* operator new[](size_t n, const std::nothrow_t&) noexcept { void* p = malloc(n ? n : 1); if (p) { ++mc::g_live_allocs; if (mc::g_new_fill_on) memset(p, mc::g_new_fill, n); } return p; }
 void operator delete(void* p) noexcept { if (p) { --mc::g_live_allocs; free(p); } }
 void operator delete[](void* p) noexcept { if (p) { --mc::g_live_allocs; free(p); } }
 void operator delete(void* p, size_t) noexcept { if (p) { --mc::g_live_allocs; free(p); } }
